@@ -24,9 +24,12 @@ type Pair struct {
 func NewPair(fileDir string) (*Pair, error) { return NewPairBS(fileDir, "FIX.4.2") }
 
 // NewPairBS: both engines speak the given BeginString.
-func NewPairBS(fileDir, bs string) (*Pair, error) {
-	ci := Config{Initiator: true, BeginString: bs, FileDir: fileDir}
-	ca := Config{BeginString: bs, Flip: true, FileDir: fileDir}
+func NewPairBS(fileDir, bs string) (*Pair, error) { return NewPairExtra(fileDir, bs, nil) }
+
+// NewPairExtra: both engines also get the extra session settings.
+func NewPairExtra(fileDir, bs string, extra map[string]string) (*Pair, error) {
+	ci := Config{Initiator: true, BeginString: bs, FileDir: fileDir, Extra: extra}
+	ca := Config{BeginString: bs, Flip: true, FileDir: fileDir, Extra: extra}
 	i, err := NewWorld(ci)
 	if err != nil {
 		return nil, err
